@@ -71,6 +71,11 @@ def mapSizeHi (inputMax : Int) (offset limit : Option Int) : Int :=
   let m := match offset with | some o => max 0 (inputMax - o) | none => inputMax
   match limit with | some l => min l m | none => m
 
+/-- `i64::try_from(n).unwrap_or(i64::MAX)`: how `Map::size` converts the `usize` of a LIMIT / OFFSET since `fix:` cd44703 -/
+def usizeToI64Sat (n : Nat) : Int := if (n : Int) ≤ maxI then n else maxI
+/-- `n as i64` for a 64-bit `usize`: what it did before (two's-complement reinterpretation) -/
+def usizeAsI64 (n : Nat) : Int := if (n : Int) ≤ maxI then n else (n : Int) - 18446744073709551616
+
 def mapSizeHiSaturating (inputMax : Int) (offset limit : Option Int) : Int :=
   let m := match offset with | some o => clampI (inputMax - o) | none => inputMax
   match limit with | some l => min l m | none => m
